@@ -219,7 +219,13 @@ def pLine : P Verdict := do
   P.kw "stall"; let _ ← P.nat
   P.kw "OUT"
   match (← P.peek) with
-  | some "PANIC" => return .diff "the real code panicked during the run (not a verdict on races; see the case)"
+  | some "PANIC" =>
+    let _ ← P.tok
+    let cls := (← P.peek).getD "?"
+    -- the Go runtime's own detection of unsynchronised use: two goroutines closing one channel, concurrent map access
+    if (cls.splitOn "close_of_closed_channel").length > 1 || (cls.splitOn "concurrent_map").length > 1 then
+      return .viol s!"C17:sync-fault-{cls} the Go runtime stopped the run: {cls} (two goroutines used the same object without synchronisation)"
+    return .diff s!"the real code panicked during the run ({cls}; not a verdict on races; see the case)"
   | some "HANG" => return .diff "the run did not finish (watchdog)"
   | _ => pure ()
   if kind == "trace" then
